@@ -136,6 +136,29 @@ func (c *VCtx) callFn(fr *Frame, st *State, cc *ssa.CallCommon, fv *FnVal, args 
 		return nil
 	}
 	ct := c.eng.ContractOf(callee)
+	if ct != nil && ct.Opts["holds"] != "" && callee.Signature.Recv() != nil && callee != c.top && len(args) > 0 {
+		// a ...Locked helper: the caller must be inside a critical section of the lock the helper relies on
+		if recv, ok := args[0].(*Term); ok && recv.Sort == SRef {
+			lock := c.lockByPath(st, recv, deref(callee.Params[0].Type()), ct.Opts["holds"])
+			_, held := st.held[lock.S]
+			name := "call.holds." + FuncKey(callee)
+			desc := "call of " + FuncKey(callee) + " at " + c.eng.pos(cc.Pos()) + " happens while the lock it relies on (" + ct.Opts["holds"] + ") is held"
+			switch {
+			case held:
+				c.staticObl(name, desc, true, "")
+			case len(st.held) == 0:
+				c.staticObl(name, desc, false, "the helper expects "+ct.Opts["holds"]+" of its receiver to be held; no lock is held here")
+			default:
+				// not syntactically the same lock: it must be provably one of the locks held
+				var alts []*Term
+				for _, h := range st.held {
+					alts = append(alts, Eq(lock, h.obj))
+				}
+				c.prove(name, desc, st.pc, Or(alts...), nil)
+			}
+			c.obls[len(c.obls)-1].Props = c.ownProps()
+		}
+	}
 	if ct != nil && !ct.Inline && callee != c.top {
 		return c.applyContract(fr, st, cc, ct, callee, fv, args, rt)
 	}
@@ -333,10 +356,11 @@ func (c *VCtx) spawn(fr *Frame, st *State, cc *ssa.CallCommon, fv *FnVal, args [
 	}
 	if fr.contract != nil {
 		fr.gos++
-		c.runGhost(fr, st, fr.contract, fmt.Sprintf("go %d", fr.gos), map[string]Val{"child": child})
+		// (assertions describe the state in which the goroutine is started; the ghost updates come after)
 		if fr.contract.Asserts != nil {
 			c.pointAsserts(fr, st, fmt.Sprintf("go %d", fr.gos), cc.Pos())
 		}
+		c.runGhost(fr, st, fr.contract, fmt.Sprintf("go %d", fr.gos), map[string]Val{"child": child})
 	}
 	// cells captured by a spawned closure are shared from now on
 	for _, b := range append(append([]Val{}, fv.Binds...), args...) {
@@ -475,6 +499,23 @@ func (c *VCtx) applyContract(fr *Frame, st *State, cc *ssa.CallCommon, ct *FuncC
 		// what survives a call whose frame is not verified: the callee (running as this invocation) and
 		// everybody else respect the ghost-map disciplines and the package guarantees
 		c.afterOpaqueCall(st, pre, ct.Opts["holds"] != "")
+	}
+	if ct.Opts["holds"] != "" && c.top != nil {
+		// a ...Locked helper re-establishes the invariants of the monitor it works in before it returns
+		// (proved at its own exit), and the global invariants with them
+		for _, h := range st.held {
+			for _, m := range h.specs {
+				sc := c.objScope(m, st, st)
+				for _, inv := range m.spec.Invs {
+					c.factG(st.pc, c.translateBool(sc, inv.E))
+				}
+			}
+		}
+		for _, g := range c.globalClauses() {
+			if !g.trans {
+				c.factG(st.pc, c.translateBool(c.globalScope(g.pkg, st, nil), g.cl.E))
+			}
+		}
 	}
 	sc2 := c.contractScope(callee, ct, fv, args, st, pre, res)
 	for _, e := range ct.Ensures {
@@ -1036,6 +1077,20 @@ func (c *VCtx) isGhostFieldHeap(h string) bool {
 // their value, alloc only grows, the two-state guarantees hold for the step, and (outside critical sections)
 // the global invariants hold again.
 func (c *VCtx) afterOpaqueCall(st, pre *State, worksUnderCallerLock bool) {
+	// fields declared immutable keep their value on every object that existed before the call
+	allocPre := c.allocHeap(pre)
+	for _, hn := range c.immutableHeaps() {
+		srt, ok := c.heapSorts[hn]
+		if !ok {
+			continue
+		}
+		old := c.heap(pre, hn, srt)
+		nw := c.heap(st, hn, srt)
+		if old.S == nw.S {
+			continue
+		}
+		c.linkFact(T(SBool, fmt.Sprintf("(forall ((r Ref)) (! (=> (select %s r) (= (select %s r) (select %s r))) :pattern ((select %s r))))", allocPre.S, nw.S, old.S, nw.S)))
+	}
 	for _, g := range c.ghostMaps() {
 		if g.kind != "once" {
 			continue
@@ -1050,11 +1105,37 @@ func (c *VCtx) afterOpaqueCall(st, pre *State, worksUnderCallerLock bool) {
 	}
 	if len(st.held) == 0 {
 		c.assumeGlobal(st, pre)
-	} else if !worksUnderCallerLock {
+	} else {
+		// (a helper that works inside the caller's critical section proves the guarantees for entry -> exit itself)
+		_ = worksUnderCallerLock
 		for _, g := range c.globalClauses() {
 			if g.trans {
 				c.factG(st.pc, c.translateBool(c.globalScope(g.pkg, st, pre), g.cl.E))
 			}
 		}
 	}
+}
+
+// immutableHeaps: the field heaps of all fields declared immutable in the relevant packages.
+func (c *VCtx) immutableHeaps() []string {
+	var out []string
+	for _, pkg := range c.relevantPkgs() {
+		ps := c.eng.Specs[pkg]
+		short := strings.TrimPrefix(pkg, ModPath+"/")
+		var names []string
+		for n := range ps.Objects {
+			names = append(names, n)
+		}
+		sort.Strings(names)
+		for _, n := range names {
+			for _, f := range ps.Objects[n].Immut {
+				if strings.Contains(f, ".") {
+					out = append(out, "F:"+short+"."+f)
+				} else {
+					out = append(out, "F:"+short+"."+n+"."+f)
+				}
+			}
+		}
+	}
+	return out
 }
